@@ -797,7 +797,7 @@ func fromReflect(t *Ty, rv reflect.Value) *Val {
 	case "u8", "u16", "u32", "u64":
 		return &Val{K: 'n', Uns: true, U: rv.Uint()}
 	case "f32":
-		return &Val{K: 'f', Bits: uint64(math.Float32bits(float32(rv.Float())))}
+		return &Val{K: 'f', Bits: uint64(f32bits(rv))}
 	case "f64":
 		return &Val{K: 'd', Bits: math.Float64bits(rv.Float())}
 	case "str":
@@ -1595,6 +1595,452 @@ func dynValueField(o *hx.Out) {
 	}
 }
 
+// ---------------------------------------------------------------- embedded structs compared with the model (typeFields)
+
+// helper types: embedding depth 1..4, >= 2 fields at the innermost level, name clashes across levels, ties,
+// tagged tie-breaks, embedded pointers
+type E1 struct {
+	A int32
+	B string
+}
+type R1 struct {
+	E1
+	C int8
+	B int16 // hides E1.B
+}
+type TA struct {
+	T int8
+	U int8
+}
+type TB struct {
+	T int16
+	V int16 `nbt:"v,omitempty"`
+}
+type TC struct {
+	T int32 `nbt:"T"`
+	U uint8 `nbt:"U"`
+}
+type RTie struct { // T: two untagged at the same depth annihilate each other
+	TA
+	TB
+	W bool
+}
+type RTag struct { // T, U: the tagged ones win at equal depth
+	TA
+	TC
+}
+type M2 struct {
+	X int32
+	Y int32
+	N string
+}
+type M1 struct {
+	M2
+	N int64 // hides M2.N
+	P []int32
+}
+type R2 struct {
+	M1
+	K bool
+	Y uint8 `nbt:"y"` // a different name: M2.Y stays visible
+}
+type L3 struct {
+	X int32
+	Y int32
+	S string `nbt:",omitempty"`
+}
+type L2 struct {
+	L3
+	Q int8
+}
+type L1 struct {
+	L2
+	P int16
+}
+type R3 struct {
+	L1
+	Z [2]byte
+}
+type K4 struct {
+	X int64
+	Y int64
+	Z string
+	H []int16
+}
+type K3 struct {
+	K4
+	W float32
+	G int8 `nbt:"-"`
+}
+type K2 struct {
+	*K3
+	V uint16
+}
+type K1 struct {
+	K2
+	X int8 // hides K4.X three levels down
+}
+type R4 struct {
+	K1
+	Z bool // hides K4.Z
+	O *E1  // an ordinary pointer field of struct type
+}
+type R4P struct {
+	*K1
+	*E1
+	Y uint32 `nbt:"Y"`
+}
+
+type Decl struct {
+	Emb    bool
+	Ptr    bool
+	Sub    []Decl
+	F      Fld
+	Tagged bool
+}
+
+func tyOf(rt reflect.Type) *Ty {
+	switch rt.Kind() {
+	case reflect.Bool:
+		return &Ty{K: "bool"}
+	case reflect.Int8:
+		return &Ty{K: "i8"}
+	case reflect.Uint8:
+		return &Ty{K: "u8"}
+	case reflect.Int16:
+		return &Ty{K: "i16"}
+	case reflect.Uint16:
+		return &Ty{K: "u16"}
+	case reflect.Int32:
+		return &Ty{K: "i32"}
+	case reflect.Uint32:
+		return &Ty{K: "u32"}
+	case reflect.Int64:
+		return &Ty{K: "i64"}
+	case reflect.Uint64:
+		return &Ty{K: "u64"}
+	case reflect.Float32:
+		return &Ty{K: "f32"}
+	case reflect.Float64:
+		return &Ty{K: "f64"}
+	case reflect.String:
+		return &Ty{K: "str"}
+	case reflect.Slice:
+		return &Ty{K: "sl", E: tyOf(rt.Elem()), rt: rt}
+	case reflect.Array:
+		return &Ty{K: "ar", N: rt.Len(), E: tyOf(rt.Elem()), rt: rt}
+	case reflect.Map:
+		return &Ty{K: "map", E: tyOf(rt.Elem()), rt: rt}
+	case reflect.Pointer:
+		return &Ty{K: "ptr", E: tyOf(rt.Elem()), rt: rt}
+	case reflect.Struct: // a plain struct (no embedding inside)
+		t := &Ty{K: "st", rt: rt}
+		for i := 0; i < rt.NumField(); i++ {
+			f, _ := fldOf(rt.Field(i))
+			t.F = append(t.F, f)
+		}
+		return t
+	}
+	panic("tyOf " + rt.String())
+}
+
+// fldOf reads the struct tag the way the documentation describes it (independently of nbt/typeinfo.go)
+func fldOf(sf reflect.StructField) (Fld, bool) {
+	f := Fld{Go: sf.Name, Name: sf.Name, Tag: string(sf.Tag)}
+	tag := sf.Tag.Get("nbt")
+	if tag == "-" || !sf.IsExported() {
+		f.Skip = true
+	}
+	parts := strings.Split(tag, ",")
+	tagged := false
+	if parts[0] != "" && tag != "-" {
+		f.Name, tagged = parts[0], true
+	}
+	if k := sf.Tag.Get("nbtkey"); k != "" {
+		f.Name, tagged = k, true
+	}
+	for _, o := range parts[1:] {
+		switch o {
+		case "omitempty":
+			f.Omit = true
+		case "list":
+			f.List = true
+		}
+	}
+	f.T = tyOf(sf.Type)
+	return f, tagged
+}
+
+func declsOf(rt reflect.Type) []Decl {
+	var ds []Decl
+	for i := 0; i < rt.NumField(); i++ {
+		sf := rt.Field(i)
+		st := sf.Type
+		isPtr := st.Kind() == reflect.Pointer
+		if isPtr {
+			st = st.Elem()
+		}
+		nameTag := strings.Split(sf.Tag.Get("nbt"), ",")[0] != "" || sf.Tag.Get("nbtkey") != ""
+		if sf.Anonymous && st.Kind() == reflect.Struct && !nameTag && sf.Tag.Get("nbt") != "-" {
+			ds = append(ds, Decl{Emb: true, Ptr: isPtr, Sub: declsOf(st)})
+			continue
+		}
+		f, tagged := fldOf(sf)
+		ds = append(ds, Decl{F: f, Tagged: tagged})
+	}
+	return ds
+}
+
+func declTokens(sb *strings.Builder, ds []Decl) {
+	for _, d := range ds {
+		if d.Emb {
+			p := "v"
+			if d.Ptr {
+				p = "p"
+			}
+			fmt.Fprintf(sb, " DE %s %d", p, len(d.Sub))
+			declTokens(sb, d.Sub)
+			continue
+		}
+		fl := ""
+		if d.Tagged {
+			fl += "t"
+		}
+		if d.F.Omit {
+			fl += "o"
+		}
+		if d.F.List {
+			fl += "l"
+		}
+		if d.F.Skip {
+			fl += "s"
+		}
+		if fl == "" {
+			fl = "-"
+		}
+		sb.WriteString(" DF " + hx.Hex([]byte(d.F.Name)) + " " + fl)
+		d.F.T.Tokens(sb)
+	}
+}
+
+// fillEmb sets random values; returns nothing (the value is read back with dvTokens)
+func fillEmb(r *hx.Rng, ds []Decl, rv reflect.Value) {
+	for i, d := range ds {
+		fv := rv.Field(i)
+		if d.Emb {
+			if d.Ptr {
+				if r.Intn(4) == 0 {
+					continue
+				}
+				fv.Set(reflect.New(fv.Type().Elem()))
+				fv = fv.Elem()
+			}
+			fillEmb(r, d.Sub, fv)
+			continue
+		}
+		fv.Set(build(d.F.T, genVal(r, d.F.T, 2, false)))
+	}
+}
+
+func dvTokens(sb *strings.Builder, ds []Decl, rv reflect.Value, top bool) {
+	if top {
+		fmt.Fprintf(sb, " VL %d", len(ds))
+	}
+	for i, d := range ds {
+		fv := rv.Field(i)
+		if d.Emb {
+			if d.Ptr {
+				if fv.IsNil() {
+					sb.WriteString(" VN")
+					continue
+				}
+				fv = fv.Elem()
+			}
+			fmt.Fprintf(sb, " VE %d", len(d.Sub))
+			dvTokens(sb, d.Sub, fv, false)
+			continue
+		}
+		sb.WriteString(" VF")
+		fromReflect(d.F.T, fv).Tokens(sb, true)
+	}
+}
+
+// the documented visibility rule, written independently of the model: per name, the shallowest field wins;
+// at equal depth a tagged name beats untagged ones; two of equal rank hide each other (and everything deeper)
+type leafRef struct {
+	path   []int
+	d      *Decl
+	tagged bool
+}
+
+func leaves(ds []Decl, pre []int, out *[]leafRef) {
+	for i := range ds {
+		p := append(append([]int{}, pre...), i)
+		if ds[i].Emb {
+			leaves(ds[i].Sub, p, out)
+		} else if !ds[i].F.Skip {
+			*out = append(*out, leafRef{p, &ds[i], ds[i].Tagged})
+		}
+	}
+}
+
+func visible(ds []Decl) map[string]bool { // key: path rendered
+	var all []leafRef
+	leaves(ds, nil, &all)
+	byName := map[string][]leafRef{}
+	for _, l := range all {
+		byName[l.d.F.Name] = append(byName[l.d.F.Name], l)
+	}
+	vis := map[string]bool{}
+	for _, ls := range byName {
+		min := 1 << 30
+		for _, l := range ls {
+			if len(l.path) < min {
+				min = len(l.path)
+			}
+		}
+		var top, topTagged []leafRef
+		for _, l := range ls {
+			if len(l.path) == min {
+				top = append(top, l)
+				if l.tagged {
+					topTagged = append(topTagged, l)
+				}
+			}
+		}
+		switch {
+		case len(topTagged) == 1:
+			vis[fmt.Sprint(topTagged[0].path)] = true
+		case len(topTagged) == 0 && len(top) == 1:
+			vis[fmt.Sprint(top[0].path)] = true
+		}
+	}
+	return vis
+}
+
+// expectEmb: tokens of the value a fresh variable must hold after the round trip. present reports whether a
+// visible field below was written (an embedded pointer is allocated exactly then).
+func expectEmb(sb *strings.Builder, ds []Decl, rv reflect.Value, reach bool, vis map[string]bool, pre []int, top bool) (present bool) {
+	if top {
+		fmt.Fprintf(sb, " VL %d", len(ds))
+	}
+	for i, d := range ds {
+		p := append(append([]int{}, pre...), i)
+		var fv reflect.Value
+		if reach {
+			fv = rv.Field(i)
+		}
+		if d.Emb {
+			r2 := reach
+			if d.Ptr && reach {
+				if fv.IsNil() {
+					r2 = false
+				} else {
+					fv = fv.Elem()
+				}
+			}
+			var inner strings.Builder
+			pr := expectEmb(&inner, d.Sub, fv, r2, vis, p, false)
+			if d.Ptr && !pr {
+				sb.WriteString(" VN")
+			} else {
+				fmt.Fprintf(sb, " VE %d%s", len(d.Sub), inner.String())
+			}
+			present = present || pr
+			continue
+		}
+		sb.WriteString(" VF")
+		if reach && vis[fmt.Sprint(p)] {
+			v := fromReflect(d.F.T, fv)
+			if !(d.F.Omit && isEmpty(v)) {
+				expect(d.F.T, v).Tokens(sb, true)
+				present = true
+				continue
+			}
+		}
+		zeroVal(d.F.T).Tokens(sb, true)
+	}
+	return present
+}
+
+func embeddedModel(o *hx.Out) {
+	r := o.R
+	roots := []any{R1{}, RTie{}, RTag{}, R2{}, R3{}, R4{}, R4P{}}
+	for _, root := range roots {
+		rt := reflect.TypeOf(root)
+		ds := declsOf(rt)
+		vis := visible(ds)
+		var dtok strings.Builder
+		fmt.Fprintf(&dtok, " DL %d", len(ds))
+		declTokens(&dtok, ds)
+		for n := 0; n < o.N(30, 10); n++ {
+			pv := reflect.New(rt)
+			fillEmb(r, ds, pv.Elem())
+			for _, byval := range []bool{true, false} {
+				idx++
+				file := r.Bool()
+				name := []byte("e")
+				if !file {
+					name = nil
+				}
+				var vtok strings.Builder
+				dvTokens(&vtok, ds, pv.Elem(), true)
+				before := vtok.String()
+				var arg any = pv.Interface()
+				mode := "ptr"
+				if byval {
+					arg, mode = pv.Elem().Interface(), "val"
+				}
+				bs, err, pan := encode(arg, file, string(name))
+				var atok strings.Builder
+				dvTokens(&atok, ds, pv.Elem(), true)
+				desc := clip(fmt.Sprintf("embedded %s fmt=%s mode=%s value=%s", rt.Name(), fmtName(file), mode, before))
+				if atok.String() != before {
+					o.Fail("C02.pure", "%s after=%s", desc, clip(atok.String()))
+				}
+				head := fmt.Sprintf("B %d", idx)
+				caseLine := fmt.Sprintf("B %d %s %s %s%s ;%s", idx, fmtName(file), mode, hx.Hex(name), dtok.String(), before)
+				cat := "embedded-model." + rt.Name()
+				if pan != "" {
+					o.Case(cat, true, caseLine, head+" panic")
+					o.Fail("C02.panic.encode", "%s panic=%s", desc, pan)
+					continue
+				}
+				if err != nil {
+					o.Case(cat+".encerr", true, caseLine, head+" err")
+					continue
+				}
+				if _, _, rest, perr := c01x.ParseDoc(bs, file); perr != nil || len(rest) != 0 {
+					o.Fail("C02.encode.malformed", "%s out=%s", desc, clip(hx.Hex(bs)))
+				}
+				fresh := reflect.New(rt)
+				dname, left, derr, dpan := decode(bs, file, fresh.Interface())
+				impl := head + " ok " + hx.Hex(bs)
+				switch {
+				case dpan != "":
+					impl += " dpanic"
+					o.Fail("C02.panic.decode", "%s out=%s panic=%s", desc, clip(hx.Hex(bs)), dpan)
+				case derr != nil:
+					impl += " derr"
+					o.Fail("C02.roundtrip.decode-error", "%s out=%s err=%v", desc, clip(hx.Hex(bs)), derr)
+				default:
+					var got, want strings.Builder
+					dvTokens(&got, ds, fresh.Elem(), true)
+					impl += fmt.Sprintf(" %s %d%s", hx.Hex([]byte(dname)), left, got.String())
+					expectEmb(&want, ds, pv.Elem(), true, vis, nil, true)
+					if got.String() != want.String() {
+						o.Fail("C02.embedded.value", "%s out=%s got=%s want=%s", desc, clip(hx.Hex(bs)), clip(got.String()), clip(want.String()))
+					}
+					if left != 0 || dname != string(name) {
+						o.Fail("C02.roundtrip.left", "%s left=%d name=%q", desc, left, dname)
+					}
+				}
+				o.Case(cat, true, caseLine, impl)
+			}
+		}
+	}
+}
+
 // ---------------------------------------------------------------- main
 
 func main() {
@@ -1667,4 +2113,13 @@ func main() {
 	// 4. embedding through named helper types (predicate only: not in the model's universe)
 	embedded(o)
 	dynValueField(o)
+	embeddedModel(o)
+}
+
+// f32bits: the bits of a float32-kinded value as stored (reflect.Value.Float goes through float64 and quiets
+// signalling NaNs on amd64)
+func f32bits(v reflect.Value) uint32 {
+	nv := reflect.New(v.Type()).Elem()
+	nv.Set(v)
+	return *(*uint32)(nv.Addr().UnsafePointer())
 }
